@@ -37,3 +37,39 @@ Theorem C02_commits_iff_no_error : forall S d ops,
   is_Some (snd (transact S d ops)) <-> has_error (fst (transact S d ops)) = false.
 Proof. exact commits_iff_no_error. Qed.
 Print Assumptions C02_commits_iff_no_error.
+
+(** the same for what the server runs, a transaction whose values may name the
+    rows it inserts ([transact_named]): when a name cannot be resolved (a
+    uuid-name given to two rows) the operation at fault fails where it stands -
+    the operations before it are executed and have their results, one of them
+    failing first if it does, the operations after it have none *)
+From LOV Require Import Db.NamedShape.
+
+Theorem C02_named_reply_shape : forall S d l rs r,
+  transact_named S d l = (rs, r) ->
+  (Forall nonerr rs /\ length rs = length l /\ is_Some r)
+  \/ (r = None /\ length rs = length l /\ exists i e, i < length l /\
+        Forall nonerr (take i rs) /\ rs !! i = Some (RErr e) /\
+        drop (Datatypes.S i) rs = replicate (length l - i - 1) RNull)
+  \/ (r = None /\ exists rs0 e, rs = rs0 ++ [RErr e] /\ length rs0 = length l /\ Forall nonerr rs0).
+Proof. exact named_reply_shape. Qed.
+Print Assumptions C02_named_reply_shape.
+
+Theorem C02_named_failed_txn_no_effect : forall S d l,
+  has_error (fst (transact_named S d l)) = true -> commit d (transact_named S d l) = d.
+Proof. exact named_failed_no_effect. Qed.
+Print Assumptions C02_named_failed_txn_no_effect.
+
+Theorem C02_named_commits_iff_no_error : forall S d l,
+  is_Some (snd (transact_named S d l)) <-> has_error (fst (transact_named S d l)) = false.
+Proof. exact named_commits_iff_no_error. Qed.
+Print Assumptions C02_named_commits_iff_no_error.
+
+(** the premises are met: two inserts under one name fail at the second, after the result of the first *)
+Example C02_named_fails_at_the_fault :
+  let S := mkSchema [mkTable 1%N [] [] true] in
+  map (fun r => match r with RUuid u => (1, u) | RRows rs => (2, N.of_nat (length rs)) | RErr _ => (5, 0%N) | RNull => (6, 0%N) | _ => (0, 0%N) end)
+      (fst (transact_named S ∅ [mkNop (OInsert 1%N 10%N ∅) (Some 5%N); mkNop (OSelect 1%N [] []) None;
+                                mkNop (OInsert 1%N 11%N ∅) (Some 5%N); mkNop (OSelect 1%N [] []) None]))
+  = [(1, 10%N); (2, 1%N); (5, 0%N); (6, 0%N)].
+Proof. vm_compute. reflexivity. Qed.
